@@ -613,6 +613,9 @@ def run_effects(q, pid, rc, scratch, logdir, known, out):
     out["evaluations"] += sum(o.get("paths", 0) for o in r["obligations"])
     rel = getattr(q, "relevant", {}).get(pid)
     failed = [o for o in r["obligations"] if not o["holds"] and (rel is None or o["id"] in rel)]
+    other_failed = [o["id"] for o in r["obligations"] if not o["holds"] and o not in failed]
+    if other_failed:
+        sample["obligations_failed_but_not_relevant_to_this_property"] = other_failed
     vac = [o["id"] for o in r["obligations"] if o.get("ok_paths", 0) == 0 or o.get("vacuous")]
     if not failed:
         if vac:
@@ -621,7 +624,7 @@ def run_effects(q, pid, rc, scratch, logdir, known, out):
         else:
             sample["verdict"] = "pass"
             out["nontrivial"] += 1
-            if getattr(q, "cross_check", False):
+            if getattr(q, "cross_check", False) and not other_failed:
                 # cross-check of the encoding: the native close/reopen experiment must agree with "all obligations hold";
                 # a difference it shows that no obligation explains means the encoding misses something -> not a pass
                 binary = build_replay(rc, logdir)
